@@ -34,14 +34,14 @@ func init() {
 	register(&core.Property{
 		ID:    "C20",
 		Title: "osmapi calls hit the documented endpoint and map statuses to typed errors",
-		Explanation: "Structural necessary conditions decided on /repo/osmapi (non-test files) against the external table tables/api06.json (API v0.6 paths) by symbolic execution: every function is run with symbolic inputs, package functions inlined, each undecided branch explored under both assumptions; the rules read the outcomes, so helper extraction/inlining (including helpers taking function literals, which are executed in place when called), method vs function form, grouped parameters, branch form (if/switch/type switch), local names, named constants and statement order do not matter. " +
+		Explanation: "Structural necessary conditions decided on /repo/osmapi (non-test files) against the external table tables/api06.json (API v0.6 paths) by symbolic execution: every function is run with symbolic inputs, package functions inlined, each undecided branch explored under both assumptions; the rules read the outcomes, so helper extraction/inlining (including helpers taking function literals, which are executed in place when called), method vs function form, grouped parameters, lookup tables (map/slice/array/struct literals held in locals or in unexported package variables that are only read, with function values as entries) instead of if-chains or switches, branch form (if/switch/type switch), local names, named constants and statement order do not matter. " +
 			"(H1) on every path of every exported *Datasource endpoint method that returns a nil error exactly one request (call of the request function getFromAPI) was made, on every other path at most one, none in a loop; HTTP requests are created/sent only in getFromAPI and helpers only it calls, which performs Client.Do exactly once before decoding, tests Do's error and returns it; every package-level wrapper performs exactly `DefaultDatasource.<same name>(<its parameters in order>)` and returns its results. " +
 			"(H2) every path reaching Client.Do has tested the limiter field against nil and, when it is non-nil, called Wait(ctx) on it before and found its error nil; when Wait fails that error is returned and no request is sent. " +
 			"(H3) executing getFromAPI for every status 100..599, every path with a successful Do ends in exactly the typed error of the table (404, 403, 410, 414, other non-200, the latter recording the status) and in the XML decode of the response body into the item parameter only for 200; NotFound, executed for nil, a foreign error and every error type of the package, is true exactly for the 404 type; the request is a GET created by http.NewRequest; on every endpoint path the request's error is tested and, when non-nil, returned unchanged. " +
 			"(H4) the URL argument of the request, evaluated symbolically on every path (constant format strings, concatenation, option and id-list loops summarised, each hole bound to a method parameter) and merged over the paths (configured vs default base URL, options given or not), equals the table entry; base-URL methods return the configured BaseURL exactly when non-empty, else the default; getFromAPI requests its URL parameter unchanged, without body. " +
 			"(H5) every path returning a nil error returns the table's field of the fresh empty document that was the decode target; element [0] is returned only on paths whose passed tests imply len == 1. " +
 			"(H6) At/Limit/MaxDaysClosed construct an option holding the argument whose apply method appends exactly `at=` (UTC, layout 2006-01-02T15:04:05Z), `limit=` (appended exactly for 1..10000) and `closed=`; option-joining functions join with `&` and return option errors. " +
-			"NOT decided: that encoding/xml returns the server's elements unmodified; URL escaping beyond the presence of QueryEscape on the search query; precision of %f for bounding boxes (6 decimals); that the http.Client follows the request unchanged (redirects, transport); trailing `?`/`&` when no option is given (accepted by the table); the text of error messages and the URL recorded in the typed errors; code shapes outside the executor's model (goroutines, function literals that escape to code that is not inlined, method values, labelled jumps, general loops, pointer-declared or shared strings.Builder/bytes.Buffer, url.Values, writes through pointers or to fields) are reported as undecided, not accepted.",
+			"NOT decided: that encoding/xml returns the server's elements unmodified; URL escaping beyond the presence of QueryEscape on the search query; precision of %f for bounding boxes (6 decimals); that the http.Client follows the request unchanged (redirects, transport); trailing `?`/`&` when no option is given (accepted by the table); the text of error messages and the URL recorded in the typed errors; code shapes outside the executor's model (goroutines, function literals that escape to code that is not inlined, method values, labelled jumps, general loops, pointer-declared or shared strings.Builder/bytes.Buffer, url.Values, tables filled by assignments (init functions) or searched with sort.Search, indexed writes into presized slices, writes through pointers or to fields) are reported as undecided, not accepted.",
 		Assumptions: []string{"go/types (x/tools v0.29.0)", "tables/api06.json transcribes the OSM API v0.6 documentation", "fmt.Sprintf/Sprint/Fprintf verbs %d/%f/%s/%v, strings.Join, strings.Builder/bytes.Buffer writes, strconv.AppendInt/FormatInt/Itoa, url.QueryEscape, time.Time.UTC/Format, append/len/make behave as documented", "errors of the package do not wrap other errors (errors.As is modelled as the type test of its target)", "net/http sends the request it is given; encoding/xml decodes faithfully", "every option appends a non-empty key=value string (H6), so `options given` and `option string non-empty` coincide", "function values, interface calls other than the option apply methods and the limiter, and library calls that are not modelled yield unknown values; they cannot alter locals of the analysed function"},
 		LevelText:   "Structural necessary conditions of the request/response contract, decided for every endpoint method, every wrapper, every status value 100..599 and every path of getFromAPI by symbolic execution with helpers inlined: one request per call, limiter before the request, status-to-error table, URL shape equal to the external API v0.6 table with parameter-to-position binding, single-element guards, option encodings. Fidelity of the XML decode and of net/http is not decided.",
 		LevelNote:   "Trusts the Go type checker, the model of the symbolic executor (c20_sx*.go), the documented behaviour of fmt/strings/strconv/net/url/time used in URL building, and the transcription of the API v0.6 documentation in tables/api06.json.",
@@ -234,6 +234,158 @@ func joinInt64(n int, at func(i int) int64) string {
 	return string(out)
 }
 `, ExpectRule: "H4", ExpectConstruct: "path@(*Datasource).Relations"},
+			{Name: "status-table-410-mapped-to-notfound-constructor", File: "osmapi/datasource.go",
+				Find: `	if resp.StatusCode == http.StatusNotFound {
+		return &NotFoundError{URL: url}
+	}
+
+	if resp.StatusCode == http.StatusForbidden {
+		return &ForbiddenError{URL: url}
+	}
+
+	if resp.StatusCode == http.StatusGone {
+		return &GoneError{URL: url}
+	}
+
+	if resp.StatusCode == http.StatusRequestURITooLong {
+		return &RequestURITooLongError{URL: url}
+	}
+
+	if resp.StatusCode != http.StatusOK {
+		return &UnexpectedStatusCodeError{
+			Code: resp.StatusCode,
+			URL:  url,
+		}
+	}
+
+	return xml.NewDecoder(resp.Body).Decode(item)
+}
+`,
+				Replace: `	if resp.StatusCode == http.StatusOK {
+		return xml.NewDecoder(resp.Body).Decode(item)
+	}
+
+	if newError, ok := statusErrors[resp.StatusCode]; ok {
+		return newError(url)
+	}
+
+	return &UnexpectedStatusCodeError{Code: resp.StatusCode, URL: url}
+}
+
+var statusErrors = map[int]func(url string) error{
+	http.StatusNotFound: func(url string) error { return &NotFoundError{URL: url} },
+	http.StatusForbidden: func(url string) error { return &ForbiddenError{URL: url} },
+	http.StatusGone: func(url string) error { return &NotFoundError{URL: url} },
+	http.StatusRequestURITooLong: func(url string) error { return &RequestURITooLongError{URL: url} },
+}
+`, ExpectRule: "H3", ExpectConstruct: "status 410"},
+			{Name: "status-table-403-missing", File: "osmapi/datasource.go",
+				Find: `	if resp.StatusCode == http.StatusNotFound {
+		return &NotFoundError{URL: url}
+	}
+
+	if resp.StatusCode == http.StatusForbidden {
+		return &ForbiddenError{URL: url}
+	}
+
+	if resp.StatusCode == http.StatusGone {
+		return &GoneError{URL: url}
+	}
+
+	if resp.StatusCode == http.StatusRequestURITooLong {
+		return &RequestURITooLongError{URL: url}
+	}
+
+	if resp.StatusCode != http.StatusOK {
+		return &UnexpectedStatusCodeError{
+			Code: resp.StatusCode,
+			URL:  url,
+		}
+	}
+
+	return xml.NewDecoder(resp.Body).Decode(item)
+}
+`,
+				Replace: `	if resp.StatusCode == http.StatusOK {
+		return xml.NewDecoder(resp.Body).Decode(item)
+	}
+
+	if newError, ok := statusErrors[resp.StatusCode]; ok {
+		return newError(url)
+	}
+
+	return &UnexpectedStatusCodeError{Code: resp.StatusCode, URL: url}
+}
+
+var statusErrors = map[int]func(url string) error{
+	http.StatusNotFound: func(url string) error { return &NotFoundError{URL: url} },
+	http.StatusGone: func(url string) error { return &GoneError{URL: url} },
+	http.StatusRequestURITooLong: func(url string) error { return &RequestURITooLongError{URL: url} },
+}
+`, ExpectRule: "H3", ExpectConstruct: "status 403"},
+			{Name: "status-table-first-with-200-entry-returning-error", File: "osmapi/datasource.go",
+				Find: `	if resp.StatusCode == http.StatusNotFound {
+		return &NotFoundError{URL: url}
+	}
+
+	if resp.StatusCode == http.StatusForbidden {
+		return &ForbiddenError{URL: url}
+	}
+
+	if resp.StatusCode == http.StatusGone {
+		return &GoneError{URL: url}
+	}
+
+	if resp.StatusCode == http.StatusRequestURITooLong {
+		return &RequestURITooLongError{URL: url}
+	}
+
+	if resp.StatusCode != http.StatusOK {
+		return &UnexpectedStatusCodeError{
+			Code: resp.StatusCode,
+			URL:  url,
+		}
+	}
+
+	return xml.NewDecoder(resp.Body).Decode(item)
+}
+`,
+				Replace: `	if newError, ok := statusErrors[resp.StatusCode]; ok {
+		return newError(url)
+	}
+
+	if resp.StatusCode != http.StatusOK {
+		return &UnexpectedStatusCodeError{Code: resp.StatusCode, URL: url}
+	}
+
+	return xml.NewDecoder(resp.Body).Decode(item)
+}
+
+var statusErrors = map[int]func(url string) error{
+	http.StatusOK: func(url string) error { return &UnexpectedStatusCodeError{Code: http.StatusOK, URL: url} },
+	http.StatusNotFound: func(url string) error { return &NotFoundError{URL: url} },
+	http.StatusForbidden: func(url string) error { return &ForbiddenError{URL: url} },
+	http.StatusGone: func(url string) error { return &GoneError{URL: url} },
+	http.StatusRequestURITooLong: func(url string) error { return &RequestURITooLongError{URL: url} },
+}
+`, ExpectRule: "H3", ExpectConstruct: "status 200"},
+			{Name: "limit-bounds-struct-wrong-max", File: "osmapi/options.go",
+				Find: `func (o *limit) applyNotes(p []string) ([]string, error) {
+	if o.n < 1 || 10000 < o.n {
+		return nil, errors.New("osmapi: limit must be between 1 and 10000")
+	}
+	return append(p, fmt.Sprintf("limit=%d", o.n)), nil
+}
+`,
+				Replace: `func (o *limit) applyNotes(p []string) ([]string, error) {
+	if o.n < notesLimit.min || o.n > notesLimit.max {
+		return nil, errors.New("osmapi: limit must be between 1 and 10000")
+	}
+	return append(p, fmt.Sprintf("limit=%d", o.n)), nil
+}
+
+var notesLimit = struct{ min, max int }{min: 1, max: 100000}
+`, ExpectRule: "H6", ExpectConstruct: "range@Limit"},
 			{Name: "featureoptions-join-comma", File: "osmapi/options.go", Find: "strings.Join(params, \"&\")", Replace: "strings.Join(params, \",\")", ExpectRule: "H6", ExpectConstruct: "join@featureOptions"},
 		},
 	})
@@ -332,6 +484,7 @@ type c20Ctx struct {
 	reqFns  map[*types.Func]bool // functions that (transitively) perform a request, including getFromAPI
 	epRuns  map[*FuncInfo]*c20EpRun
 	getRuns map[int64]*c20GetRun
+	tables  map[*types.Var]*ast.CompositeLit // package-level lookup tables that are only read (nil = not one)
 }
 
 func c20NewCtx(r *core.R) *c20Ctx {
